@@ -573,11 +573,11 @@ class VectorT {
                     _rhs.values_.cbegin(),
                     values_.begin(),
                     [&result](const Scalar &l, const Scalar &r) {
-                        if (l < r) {
-                            return l;
-                        } else {
+                        if (r < l) {
                             result = true;
                             return r;
+                        } else {
+                            return l;
                         }
                     });
             return result;
@@ -601,11 +601,11 @@ class VectorT {
                     _rhs.values_.cbegin(),
                     values_.begin(),
                     [&result](const Scalar &l, const Scalar &r) {
-                        if (l > r) {
-                            return l;
-                        } else {
+                        if (r > l) {
                             result = true;
                             return r;
+                        } else {
+                            return l;
                         }
                     });
             return result;
